@@ -104,6 +104,43 @@ CLASSIFIERS = {"show_nilnil_on_graphnames_error": is_show_nilnil,
                "construct_writer_left_on_template_error": is_construct_writer_left}
 
 
+GRAPH_METHODS = ["Objects", "Subjects", "PredicatesForSubject", "PredicatesForObject", "PredicatesForSubjectAndObject",
+                 "TriplesForSubject", "TriplesForPredicate", "TriplesForObject", "TriplesForSubjectAndPredicate",
+                 "TriplesForPredicateAndObject", "Exist", "Triples", "AddTriples", "RemoveTriples"]
+STORE_METHODS = ["NewGraph", "Graph", "DeleteGraph", "GraphNames"]
+
+
+def reachable_methods():
+    """driver entry points that have a call site in bql/planner or bql/semantic (non-test files), found at check time"""
+    import glob, re
+    src = ""
+    for f in glob.glob(os.path.join(REPO, "bql", "planner", "*.go")) + glob.glob(os.path.join(REPO, "bql", "semantic", "*.go")):
+        if not f.endswith("_test.go"):
+            src += open(f, errors="replace").read()
+    out = []
+    for m in GRAPH_METHODS:
+        if re.search(r"\b(g|ig|og)\.%s\(" % m, src):
+            out.append("Graph." + m)
+    for m in STORE_METHODS:
+        if re.search(r"\b(store|st|s)\.%s\(" % m, src):
+            out.append("Store." + m)
+    return out
+
+
+def method_coverage(runs):
+    called, failed = collections.Counter(), collections.Counter()
+    for r in runs:
+        meth = {}
+        for c in r["calls"]:
+            called[c.get("m", "?")] += 1
+            meth[(c["k"], c["g"], c["n"])] = c.get("m", "?")
+        for e in r.get("sched") or []:
+            m = meth.get((e["k"], e["g"], e["n"]))
+            if m:
+                failed[m] += 1
+    return called, failed
+
+
 def slim(r):
     return {"case": r["case"], "bulk": r["bulk"], "prefix": r["prefix"], "text": r["stmt"]["text"], "sched": r.get("sched"),
             "class": r["class"], "err": r.get("err", "")[:200], "calls": r["calls"], "goroutines_left": r["goroutines_left"], "ms": r["ms"]}
@@ -114,6 +151,13 @@ def run(ctx):
     ctx.cov["checker_cmd"] = "coqc -Q coq/Exec BWExec coq/Exec/Props/C20.v; work/bin/h_fault -seed S -n N | model evaluated by vm_compute (coq/Exec/Corr.v fault_agrees)"
     n = 600 if ctx.tier == "thorough" else 36
     runs = hfault(["-seed", str(ctx.seed), "-n", str(n)])
+    if ctx.replay:
+        rp = json.load(open(ctx.replay))
+        want = (rp.get("violation") or {}).get("case", {}).get("case")
+        runs = [r for r in runs if r["case"] == want]
+        for r in runs:
+            print("REPLAY impl: %-7s goroutines_left=%d ms=%d sched=%s  %s" % (r["class"], r["goroutines_left"], r["ms"],
+                  [(e["k"], e["g"], e["n"], e["mode"]) for e in (r.get("sched") or [])], r["stmt"]["text"]))
     open_findings = {f.get("class"): f for f in vcheck.known_findings("C20")}
     reproduced = collections.Counter()
     stats = collections.Counter()
@@ -151,6 +195,15 @@ def run(ctx):
         ctx.violation({"kind": "fault-model-vs-real-engine", "case": slim(cmp_runs[i]),
                        "explain": "outcome class, the driver calls made (other than lookups), or the store afterwards differ from "
                                   "fexec (Coq, vm_compute) under the same schedule"})
+    called, failed = method_coverage(runs)
+    need = reachable_methods()
+    allm = ["Graph." + m for m in GRAPH_METHODS] + ["Store." + m for m in STORE_METHODS]
+    ctx.cov["driver_methods"] = {m: {"calls": called[m], "runs_with_this_call_failing": failed[m],
+                                     "call_site_in_planner": m in need} for m in allm}
+    ctx.cov["driver_methods_without_call_site"] = [m for m in allm if m not in need]
+    missing = [m for m in need if called[m] == 0 or failed[m] == 0]
+    if missing and not ctx.replay:
+        ctx.broken("fault corpus does not reach (or never fails) driver entry points the planner calls: %s" % ", ".join(missing))
     ctx.cov["evaluations"] = len(runs)
     ctx.cov["distinct_nontrivial"] = len({vcheck.case_hash([r["prefix"], r["stmt"]["text"], r["sched"], r["bulk"]]) for r in runs if consumed(r)})
     ctx.cov["rule"] = ("one evaluation = one execution of a statement over the recording/failing driver: the fault-free run "
@@ -164,3 +217,15 @@ def run(ctx):
     ctx.cov["max_ms"] = max([r["ms"] for r in runs] or [0])
     ctx.cov["goroutines_left_runs"] = sum(1 for r in runs if r["goroutines_left"] > 0)
     ctx.assumptions += ["partial: bounded time and goroutine exit are observed by the harness watchdog, not proved"]
+
+
+def search(ctx, broken):
+    """failing-input search when an obligation or the build breaks: the property itself against the implementation"""
+    try:
+        runs = hfault(["-seed", str(ctx.seed), "-n", "30"])
+    except Exception:
+        return None
+    for r in runs:
+        if (consumed(r) and r["class"] != "error") or r["goroutines_left"] > 0 or r["class"] in ("hang", "panic"):
+            return slim(r)
+    return None
